@@ -549,7 +549,7 @@ def rule_L01_convex(ctx):
         if ok:
             done += 1
             res.sample({'kind': short, 'verdict': 'every coefficient of the update is non-negative for every length; with coefficient sum 1 (L01) the update is convex'})
-    res.floor('convex kinds decided', 4, done + len({v.key.split('|')[0] for v in res.violations}))
+    res.floor('convex kinds decided', 3, done + len({v.key.split('|')[0] for v in res.violations}))
     return res
 
 
